@@ -23,6 +23,7 @@ repairs changed.  The one statement that is still false is "`single` always emit
 (`C11_huawei_always_emits_false`): it refuses, by its own assertion, more than one changed line per side.
 -/
 import AnnetModel.Lemmas.Vlan
+import AnnetModel.Lemmas.VlanIface
 
 /-! OBLIGATIONS
 Annet.Vlan.C11_expand_collapse_huawei
@@ -44,6 +45,9 @@ Annet.Vlan.C11_pool_one_list
 Annet.Vlan.C11_pool_keyed_by_first_id_old_rule_false
 Annet.Vlan.C11_vlan_diff_keeps_batch_rows
 Annet.Vlan.C11_vlan_diff_never_removes_batched_vlan
+Annet.Vlan.C11_nexus_port_channel_member_exact
+Annet.Vlan.C11_not_member_is_plain_logic
+Annet.Vlan.C11_cisco_leaves_port_channel_false
 -/
 
 namespace Annet.Vlan
@@ -495,5 +499,38 @@ example : ∃ ys, cLeaf (χ := Unit) .swtrunk true exCOld exCNew = .ok ys ∧
       subst hr; rfl)
 example : (interpC (cDevice .swtrunk exC) ([.w "no"] ++ exC ++ [.w "remove", .spec [[5], [26, 30]]]))
     = some (.rem [5, 26, 27, 28, 29, 30]) := rfl
+
+/-! ## port-channel members (`cLeafIface`: cisco/iface.py and nexus/iface.py filter a member's rows before the VLAN logic) -/
+
+/-- NX-OS, whichever side is a port-channel member — in particular a port that leaves its port-channel: the commands end
+in exactly the new set and never remove a common VLAN. -/
+theorem C11_nexus_port_channel_member_exact {χ : Type} (m : CMode) (catalyst oldMember newMember : Bool) (p : CRow)
+    (old new : List CRow) (vl : CRow → List Nat)
+    (hp0 : p ≠ []) (hp : p.head? ≠ some (.w "no"))
+    (hparse : ∀ r, r ∈ old ∨ r ∈ new → cParseVlancfg r = .ok (p, vl r))
+    (hold : Disj vl old) (hnew : Disj vl new)
+    (hnone : ∀ r ∈ new, vl r = [] → new = [r]) :
+    ∃ ys, cLeafIface (χ := χ) .nexus m catalyst oldMember newMember old new = .ok ys ∧
+      ∀ cs, cs.Perm (ys.map (·.row)) →
+        EndsIn (interpC (cDevice m p)) cs (setOf vl old) (setOf vl new) ∧
+        KeepsCommon (interpC (cDevice m p)) cs (setOf vl old) (setOf vl new) :=
+  nexus_member_exact m catalyst oldMember newMember p old new vl hp0 hp hparse hold hnew hnone
+
+/-- Ports that are no port-channel members on either side: both vendors are the plain logic (`C11_cisco_exact` applies). -/
+theorem C11_not_member_is_plain_logic {χ : Type} (d : IfaceDiff) (m : CMode) (catalyst : Bool) (old new : List CRow) :
+    cLeafIface (χ := χ) d m catalyst false false old new = cLeaf m catalyst old new :=
+  cLeafIface_not_member d m catalyst old new
+
+/-- F11d — the exactness statement is FALSE for a Cisco IOS port that leaves its port-channel: old `channel-group 1 …` +
+`switchport trunk allowed vlan 10,20`, new `switchport trunk allowed vlan 10`.  The member's rows are hidden from the old
+side, `switchport trunk allowed vlan add 10` is all that is sent, and executed on {10, 20} it leaves {10, 20}.  NX-OS sends
+`no switchport trunk allowed vlan remove 20`.  Replayed on the real code (corpus/C11/cisco-port-leaves-port-channel.json). -/
+theorem C11_cisco_leaves_port_channel_false :
+    cLeafIface (χ := Unit) .cisco .swtrunk false true false swOld swNew = .ok [⟨true, swP ++ [.w "add", .spec [[10]]], none⟩] ∧
+    ¬ EndsIn (interpC (cDevice .swtrunk swP)) [swP ++ [.w "add", .spec [[10]]]] (setOf swIds swOld) (setOf swIds swNew) ∧
+    cLeafIface (χ := Unit) .nexus .swtrunk false true false swOld swNew =
+      .ok [⟨false, .w "no" :: (swP ++ [.w "remove", .spec [[20]]]), none⟩] :=
+  cisco_leaves_port_channel_false
+
 
 end Annet.Vlan
